@@ -76,7 +76,15 @@ def ecdsa(k, h, ht=1):
     return secp.der_sig(*secp.ecdsa_sign(k.d, h)) + bytes([ht])
 
 
-TYPES = ['p2pk', 'p2pkh', 'multisig', 'p2sh-multisig', 'p2sh-script', 'p2wpkh', 'p2wsh', 'p2wsh-script', 'p2sh-p2wpkh', 'p2sh-p2wsh', 'p2tr-key', 'p2tr-script', 'p2wsh-codesep']
+TYPES = ['p2pk', 'p2pkh', 'multisig', 'p2sh-multisig', 'p2sh-script', 'p2wpkh', 'p2wsh', 'p2wsh-script', 'p2sh-p2wpkh', 'p2sh-p2wsh', 'p2tr-key', 'p2tr-script', 'p2wsh-codesep', 'bare-script']
+
+# (scriptSig, scriptPubKey) pairs of a keyless bare output. Validation runs the two scripts one after the other on the same main stack, but each with its own
+# alt stack and its own conditional nesting (an IF left open at the end of the scriptSig is an error there); non-push operations in a scriptSig are allowed
+# unless SIGPUSHONLY is set
+BARE_PAIRS = [(b'\x51', b'\x51\x87'), (b'\x52\x53', b'\x93\x55\x87'), (b'\x51\x51\x93', b'\x52\x87'), (b'\x51\x76\x75', b'\x51\x87'), (b'\x74', b'\x00\x87'),
+              (b'\x51\x6b', b'\x6c'), (b'\x51\x51\x6b', b'\x6c\x87'), (b'\x51\x6b\x51', b'\x75\x6c'), (b'\x51\x6b\x51', b''),
+              (b'\x51\x63', b'\x68\x51'), (b'\x51\x63', b'\x51\x68'), (b'\x51\x00\x63', b'\x00\x69\x68'), (b'\x00\x63', b'\x68\x51'), (b'\x51\x63\x51\x67', b'\x68'),
+              (b'\x51\x63\x68', b''), (b'\x51\x61', b''), (b'', b'\x51'), (b'\x51\x51', b'\x75'), (b'\x51\x51', b''), (b'\x00', b''), (b'\x51\x69\x51', b'')]
 
 
 def arith_script(rnd):
@@ -123,6 +131,8 @@ def build(rnd, typ, ninputs=None, same_fund_decoy=False, allow_invalid=False):
         spk = b'\x00\x20' + R.sha256(ms)
     elif typ == 'p2wsh-script':
         spk = b'\x00\x20' + R.sha256(ascript)
+    elif typ == 'bare-script':
+        bare_sig, spk = rnd.choice(BARE_PAIRS)
     elif typ == 'p2wsh-codesep':
         # two REAL signatures around an executed code separator: each signs a different script code (BIP143: from the last executed separator on)
         cs_script = P(k[0].pub) + b'\xad' + (b'\x61' if rnd.random() < 0.3 else b'') + b'\xab' + P(k[1].pub) + (b'\xac' if rnd.random() < 0.7 else b'\xad\x51')
@@ -222,6 +232,8 @@ def build(rnd, typ, ninputs=None, same_fund_decoy=False, allow_invalid=False):
             vin['script'] = P(redeem)
     elif typ == 'p2wsh-script':
         vin['wit'] = list(aargs) + [ascript]
+    elif typ == 'bare-script':
+        vin['script'] = bare_sig
     elif typ == 'p2wsh-codesep':
         after = cs_script[cs_script.index(b'\xab', 35) + 1:]
         h1 = reftx.sighash_v0(tx, idx, cs_script, value, ht)
@@ -288,7 +300,7 @@ def flip(b, rnd):
     return b[:i] + bytes([b[i] ^ (1 << rnd.randrange(8))]) + b[i + 1:]
 
 
-CORR = ['none', 'none', 'none', 'sigbit', 'amount', 'output', 'sequence', 'locktime', 'drop_wit', 'extra_wit', 'empty_wit', 'proghash', 'control', 'wrong_key', 'scriptsig_junk', 'witscript_bit', 'wit_shape', 'tiny_scriptsig', 'spk_shape']
+CORR = ['none', 'none', 'none', 'scriptsig_ops', 'scriptsig_ops', 'sigbit', 'amount', 'output', 'sequence', 'locktime', 'drop_wit', 'extra_wit', 'empty_wit', 'proghash', 'control', 'wrong_key', 'scriptsig_junk', 'witscript_bit', 'wit_shape', 'tiny_scriptsig', 'spk_shape']
 
 
 def fix_txid(c):
@@ -336,7 +348,7 @@ def corrupt(c, kind, rnd):
         vin['wit'] = [b'\x01'] + vin['wit']
     elif kind == 'empty_wit' and vin['wit']:
         vin['wit'] = []
-    elif kind == 'proghash' and typ not in ('p2pk', 'multisig'):
+    elif kind == 'proghash' and typ not in ('p2pk', 'multisig', 'bare-script'):
         s = bytearray(fund.vout[c['pos']]['spk'])
         s[-3] ^= 1
         fund.vout[c['pos']]['spk'] = bytes(s)
@@ -362,6 +374,34 @@ def corrupt(c, kind, rnd):
         vin['script'] = rnd.choice([b'\x00', b'\x51', b'\x00\x00', b''])
         if typ.startswith('p2sh'):
             ops = R.decode(c.get('_orig_script', b'')) if False else None
+    elif kind == 'scriptsig_ops' and (not vin['wit'] or typ.startswith('p2sh')) and typ != 'bare-script':
+        # operations / extra pushes / other push forms in the scriptSig of a legacy, P2SH or P2SH-wrapped segwit spend: net-neutral operations
+        # (fine for a bare / P2PKH output, SIG_PUSHONLY for P2SH), an extra item below (fine unless CLEANSTACK), an extra item on top (the redeem script is
+        # no longer the last push), the redeem script pushed with OP_PUSHDATA1 (a P2SH-wrapped witness program demands exactly one canonical push), alt stack
+        # and conditional residue
+        ss = vin['script']
+        how = rnd.randrange(8)
+        if how == 0:
+            vin['script'] = b'\x51\x75' + ss
+        elif how == 1:
+            vin['script'] = ss + b'\x61'
+        elif how == 2:
+            vin['script'] = b'\x51' + ss
+        elif how == 3:
+            vin['script'] = ss + b'\x51'
+        elif how == 4:
+            ops = R.decode(ss)
+            if ops and ops[-1] is not None and ops[-1][1] is not None and 1 < len(ops[-1][1]) <= 75:
+                last = ops[-1][1]
+                vin['script'] = ss[:len(ss) - len(P(last))] + b'\x4c' + bytes([len(last)]) + last
+            else:
+                vin['script'] = b'\x61' + ss
+        elif how == 5:
+            vin['script'] = b'\x51\x6b' + ss
+        elif how == 6:
+            vin['script'] = b'\x51\x63' + ss + b'\x68'
+        else:
+            vin['script'] = b'\x51\x63' + ss
     elif kind == 'spk_shape':
         # structurally odd scriptPubKey in the funding transaction: wrong push lengths inside P2SH / witness-program shapes
         spk = bytearray(fund.vout[c['pos']]['spk'])
